@@ -37,7 +37,7 @@ def mc_all(cfg_suffix, fams=FAMS, cfg_override=None):
 def three_sanitizers(ad):
     """string declarations with three sanitizers (trim, a case mapping and a custom function in every order): where a
     reordered, fused or hoisted sanitizer shows. Always part of the sample."""
-    return (ad["fam"] == "string" and len(ad["san"]) >= 3) or ad.get("ty") == "Gen<Point>"      # (and the generic wrapper Nt<T>(T): two declarations)
+    return (ad["fam"] == "string" and len(ad["san"]) >= 3) or ad.get("ty") in ("Gen<Point>", "Vec<u8>")      # (and the generic wrapper Nt<T>(T) and the byte vector: a few declarations)
 
 
 def run_direct_property(prop, eps, sizes, nrandom, want_default, extra_must=None, mc_suffix=None,
